@@ -12,6 +12,7 @@
    DecoderLaws premise, see C14_repair_over_decompressor), and re-reading the new archive's bytes
    through the Reader (good_output is the premise `history` + well-formedness from which C02 derives
    it).  Hence the name `_partial` in props/C17.v. *)
+From MLA Require Import Limit.
 From MLA Require Import Base Stream Blocks Writer WriterProofs Reader RoundTripBlocks RoundTripWriter RoundTripRun FlushProofs
   EncLayer CompLayer CompFailSafe Repair RepairSpec RepairPure RepairProofs2 RepairProofs5 RepairProofs6
   ComposeWriterRun ComposeFlush ComposeRepair EncWriter EncWriterProofs Format Ecies Archive ArchiveProofs Cli CliProofs CliArchive CliRepair Run.
@@ -27,6 +28,7 @@ Proof.
 Qed.
 
 Section Intact.
+  Context {LIM : Limit}.
   Variable FNMAX : N.
   Variables TS TC TA TE : N.
   Variable H : bytes -> bytes.
@@ -134,10 +136,8 @@ Section Intact.
     cbn [Writer.wrun Writer.wstep] in Hrun. destruct (w_finalize_with TS TC TA TE order s) as [s2 x] eqn:E2.
     injection Hrun as <- <-. apply Forall_app in Hok. destruct Hok as [Hok1 Hok2].
     inversion Hok2 as [|? ? Hx _]; subst.
-    unfold Writer.w_finalize_with in E2.
-    destruct (w_final s) eqn:Hfin; [injection E2 as <- <-; discriminate|].
-    destruct (w_open s) eqn:Hopen; [|injection E2 as <- <-; discriminate].
-    injection E2 as <- _. cbn [w_out w_next] in *.
+    destruct x as [v|e|c]; try discriminate Hx.
+    destruct (w_finalize_ok TS TC TA TE order s s2 v E2) as (Hfin & Hopen & _ & _ & _ & ->). cbn [w_out w_next] in *.
     pose proof (create_ops_clean files r1 (wrun_length _ _ _ _ E1) Hok1) as Hclean.
     pose proof (create_ops_op_ok files Hutf Hsz) as Hopok.
     destruct (run_wrep FNMAX TS TC TA TE H order (create_ops files) w_init [] s r1
@@ -169,6 +169,7 @@ End Intact.
 (* ---------- the command ---------- *)
 Section IntactCmd.
   Variables CHUNK TAG CIPHERBUF BLOCK LIMIT FNMAX CACHE FSBUF : N.
+  Local Hint Extern 0 Limit => exact LIMIT : typeclass_instances.
   Variables TS TC TA TE : N.
   Variable H : bytes -> bytes.
   Variable order : footer -> footer.
@@ -216,6 +217,9 @@ Section IntactCmd.
     (forall n d, In (n, d) files -> len d < 2 ^ 64) -> w_next sf < 2 ^ 64 ->
     exists a, archive_write cfg ct cm (create_ops files) = Ok a /\
       forall fuel, (N.to_nat (len (w_out sf)) < fuel)%nat ->
+      (* finalize of the repaired archive did not fail with SerializationError (its footer within
+         LIMIT = BINCODE_MAX_DESERIALIZE and the u32 length field) *)
+      repair FNMAX CACHE TS TC TA TE H (Cursor (w_out sf)) fuel 0 w_init <> Err EDeser ->
       exists out obl,
         good_output out obl /\
         (forall n d, In (n, d) files -> content_of (files_of obl) n = d) /\
@@ -224,7 +228,7 @@ Section IntactCmd.
     intros Hm He Hc Hsz Hnext.
     destruct (created_opens CHUNK TAG CIPHERBUF BLOCK LIMIT FNMAX TS TC TA TE H order pubk dh kdf wenc wdec wtag ksf tagf dec
                 HCHUNK HTAG HCB HB HB32 HHlen Horder wdec_wenc Hpubk Hwenc Hwtag cfg ct cm files sf rs [] s Hm) as (a & Hw & Hh & _).
-    exists a. split; [exact Hw|]. intros fuel Hfuel.
+    exists a. split; [exact Hw|]. intros fuel Hfuel Hser.
     assert (Hwire : wire_of CHUNK BLOCK ksf tagf cfg (w_out sf) = w_out sf).
     { unfold wire_of, mid_of. rewrite He, Hc. reflexivity. }
     rewrite Hwire in Hh.
@@ -237,6 +241,7 @@ Section IntactCmd.
     { rewrite <- Hout. apply cursor_refines. }
     { split; [reflexivity | apply N.le_0_l]. }
     { rewrite <- Hout. exact Hfuel. }
+    { exact Hser. }
     exists out, obl. split; [exact Hg|]. split; [exact (Hcont obl Hsame)|].
     intros unauth cfg' ct' cm'. unfold CliRepair.cmd_repair, CliRepair.cmd_repair_gen, CliRepair.repair_open. rewrite Hh. cbn [bind]. cbv iota beta.
     cbn [key_given andb].
@@ -252,6 +257,15 @@ Section IntactCmd.
     exists a, archive_write cfg ct cm (create_ops files) = Ok a /\
       (TagCollision pubk dh kdf wenc wtag (wc_eph cfg) (wc_key cfg) (wc_recipients cfg) privs \/
        forall fuel unauth, (N.to_nat (len (w_out sf) + TAG) < fuel)%nat ->
+       (* finalize of the repaired archive did not fail with SerializationError; `es`: the state
+          the fail-safe decryptor opens in over the encrypted block stream *)
+       (forall es b,
+          fs_open CHUNK TAG (ksf (wc_key cfg) (wc_nonce cfg))
+            (Cursor (enc_format CHUNK (ksf (wc_key cfg) (wc_nonce cfg)) (tagf (wc_key cfg) (wc_nonce cfg)) (w_out sf))) 0 = (es, Ok b) ->
+          repair FNMAX CACHE TS TC TA TE H
+            (FsEnc CHUNK TAG (ksf (wc_key cfg) (wc_nonce cfg)) (tagf (wc_key cfg) (wc_nonce cfg)) unauth
+               (Cursor (enc_format CHUNK (ksf (wc_key cfg) (wc_nonce cfg)) (tagf (wc_key cfg) (wc_nonce cfg)) (w_out sf))))
+            fuel es w_init <> Err EDeser) ->
        exists out obl,
          good_output out obl /\
          (forall n d, In (n, d) files -> content_of (files_of obl) n = d) /\
@@ -277,12 +291,13 @@ Section IntactCmd.
     rewrite Hwire in Hh. rewrite <- Hout in Hbound.
     destruct (created_blocks FNMAX TS TC TA TE H order HHlen files sf rs Hrun Hok Hutf Hsz Hnext) as (bl & trailer & Hbody & Hwf & _ & Hcont).
     assert (HinE : In BEnd (bl ++ [BEnd])) by (apply in_or_app; right; left; reflexivity).
-    intros fuel unauth Hfuel.
+    intros fuel unauth Hfuel Hser. rewrite <- Hout in Hser.
     destruct (repair_encrypted_intact_complete FNMAX CACHE HFN HCACHE TS TC TA TE Htags H HHlen CHUNK TAG CIPHERBUF HCHUNK HTAG ks tagc Htg
                 (bl ++ [BEnd]) trailer Hwf (or_introl HinE) [w_out sf]
                 ltac:(cbn [concat]; rewrite app_nil_r; exact Hbody) _ sw Hew Hbound unauth fuel HinE
                 ltac:(rewrite <- Hbody; exact Hfuel))
-      as (es & b & Hfo & out & obl & Hr & Hg & Hsame & _).
+      as (es & b & Hfo & Hcon).
+    destruct (Hcon (Hser es b Hfo)) as (out & obl & Hr & Hg & Hsame & _).
     exists out, obl. split; [exact Hg|]. split; [exact (Hcont obl Hsame)|].
     intros cfg' ct' cm'. unfold CliRepair.cmd_repair, CliRepair.cmd_repair_gen, CliRepair.repair_open. rewrite Hh. cbn [bind]. cbv iota beta.
     unfold Archive.to_persistent at 1. cbn [h_layers]. destruct (has_bit_layers cfg) as [Ehb _]. rewrite Ehb, He, andb_false_r.
